@@ -97,6 +97,22 @@ def run_harness(args, race=False, timeout=1800, env=None, stdin=None, check=True
     return p
 
 
+def library_crash(p):
+    """The harness process died of a panic that no harness code could recover: the panicking goroutine was CREATED BY LIBRARY CODE (a frame under the
+    repository follows 'created by'). Returns an excerpt of the Go crash report, or None (any other failure of the harness is an infrastructure failure)."""
+    err = p.stderr or ''
+    if p.returncode != 2 or 'panic:' not in err:
+        return None
+    i = err.rfind('panic:')
+    rep = err[i:i + 6000]
+    first = rep.split('\ngoroutine ', 2)
+    body = first[1] if len(first) > 1 else rep
+    m = re.search(r'created by [^\n]*\n\s+(\S+)', body)
+    if m and m.group(1).startswith(REPO + '/'):
+        return rep[:3000]
+    return None
+
+
 # ---------------------------------------------------------------- TLC
 
 TLC_JAR = '/opt/veriftools/tla/tla2tools.jar'
